@@ -204,6 +204,11 @@ func c14One(run *ev.Run, p c14P) {
 	} else {
 		repo.EraseTS = repo.AddTS - uint32(r.Intn(5000))
 	}
+	// the operation support byte the BMC advertises says nothing about whether its contents
+	// can change (sensors come and go with hot-plugged hardware, firmware rewrites the repository)
+	if r.Intn(2) == 0 {
+		repo.OpSupportSet, repo.OpSupport = true, []byte{0x00, 0x01, 0x02, 0x03, 0x80, 0x83, 0x10, 0xff, 0x2f}[r.Intn(9)]
+	}
 	switch p.TS {
 	case 1:
 		repo.StampFn = func(uint32) uint32 { return 0xffffffff }
